@@ -1,5 +1,7 @@
 import PanderaModel.Effects
 import PanderaModel.Generated.Skeletons
+import PanderaModel.Alias
+import PanderaModel.Generated.SchemaMutation
 /-!
 # C05 — schemas are observationally immutable: no operation leaves hidden state
 -/
@@ -74,6 +76,58 @@ example : ∃ c c' r, Exec (.tryCatch (.seq (.save 0 0) (.seq (.seq (.setv 0 7) 
     c r c' ∧ c'.1 0 ≠ c.1 0 :=
   ⟨(fun _ => 0, fun _ => 0), (upd (fun _ => 0) 0 7, upd (fun _ => 0) 0 0), .norm,
    .tcE (.seqN (.save 0 0 _) (.seqE (.seqN (.setv 0 7 _) (.callE _)))) (.skip _), by simp [upd]⟩
+
+/-! ## No other function writes to a schema-side object it did not create
+
+`extract/schema_mutation.py` scans **every** function of the pandas and polars backends and every
+non-transforming method of the schema classes, and translates each one that contains a write to a
+schema-side object (attribute store, `setattr`, item store into an attribute, `set_name`, a
+container mutator on an attribute) into an ownership program.  The two functions that write to a
+shared component on purpose and undo it are the ones proved restoring above; every other function
+must pass the verified ownership analysis: it writes only to objects allocated during that very
+call (a deep copy, a shallow copy's own attributes, a new object). -/
+
+/-- the functions whose writes to shared components are covered by `restores` theorems above
+(`run_schema_component_checks_restores`, `validate_column_restores`) -/
+def restoring : List String :=
+  ["pandas/container:DataFrameSchemaBackend.run_schema_component_checks",
+   "pandas/components:ColumnBackend.validate.validate_column"]
+
+/-- per-run obligation: every other function with a schema-side write is accepted by the ownership
+analysis — as translated from the source now -/
+theorem schema_side_writes_are_owned :
+    Generated.SchemaMutation.progs.all (fun p => restoring.contains p.1 || Alias.isSafe p.2) = true := by
+  decide
+
+/-- the scan saw the code (it is not vacuous because it found nothing to scan) -/
+theorem schema_mutation_scan_nonempty :
+    (decide (100 ≤ Generated.SchemaMutation.scanned) && restoring.all (fun n => Generated.SchemaMutation.progs.any (·.1 == n))) = true := by
+  decide
+
+/-- hence: for every scanned function outside the restoring ones, **no execution changes any object
+that existed when the function was entered** — in particular no part of the schema -/
+theorem scanned_functions_leave_entry_objects (name : String) (p : Alias.AStmt)
+    (hmem : (name, p) ∈ Generated.SchemaMutation.progs) (hnot : restoring.contains name = false)
+    {s s' : Alias.St} (hex : Alias.Exec p s s') :
+    ∀ r, r < s.next → s'.heap r = s.heap r := by
+  have hall := schema_side_writes_are_owned
+  rw [List.all_eq_true] at hall
+  have := hall (name, p) hmem
+  simp only [hnot, Bool.false_or] at this
+  exact Alias.isSafe_sound this hex
+
+/-- non-vacuity: the shape of a conditional copy followed by an unconditional write (what a
+"copy only when needed" refactoring of `collect_schema_components` produces) is rejected, and has an
+execution that changes an object of the schema -/
+example : Alias.isSafe (.seq (.assign 1 0) (.seq (.choice (.copy 1) .skip) (.mutate 1))) = false := by decide
+
+example : ∃ s s', Alias.Exec (.seq (.assign 1 0) (.seq (.choice (.copy 1) .skip) (.mutate 1))) s s'
+    ∧ s.env 0 < s.next ∧ s'.heap (s.env 0) ≠ s.heap (s.env 0) :=
+  ⟨⟨fun _ => 0, fun _ => 0, 1⟩, ⟨Alias.updF (fun _ => 0) 1 0, Alias.updF (fun _ => 0) 0 1, 1⟩,
+   .seq (.assign 1 0 _) (.seq (.chR (.skip _)) (by
+     have := Alias.Exec.mutate 1 ⟨Alias.updF (fun _ => 0) 1 0, fun _ => 0, 1⟩ 1
+     simpa [Alias.updF] using this)),
+   by decide, by simp [Alias.updF]⟩
 
 end C05
 end Pandera
